@@ -11,7 +11,7 @@ ID = 'C08'
 ENGINE = 'E1 full product'
 RULE = ("full product dtype x width {scalar,1,3} x cast x user DIMENSION {unset, equal, different} x user "
         "ELEMENT-LIMIT {unset, equal, larger, more dimensions, smaller} x topology {plain, channel shared by two frames, "
-        "extra channel outside frames, one dataset under two channel names in two frames / in one frame with different casts, three channels} x source {inline, dict, structured array, HDF5}; "
+        "extra channel outside frames, one dataset under two channel names in two frames / in one frame with different casts, three channels} x source {inline, dict, structured array, HDF5} x route of the user values {keywords at creation, public setters afterwards}; "
         "inconsistent user values must raise; otherwise descriptors are read from the file and must slice every "
         "record; non-trivial = file written and descriptors compared")
 ASSUMPTIONS = ["strict reader mc/rp66.py", "reference model mc/model.py"]
